@@ -3,7 +3,7 @@
    GeomM.bounds_overlap for ALL arguments.  The generated is_sub_list works on Python integers (Z) with
    Python's full slice semantics; the model works on nat offsets: the proof shows that under the length
    guard every slice bound is in range, where the two agree. *)
-From GV Require Import Prelude GeomM PairM.
+From GV Require Import Prelude GeomM SweepM PairM.
 From GVgen Require Import PairGen.
 Open Scope Z_scope.
 
@@ -46,3 +46,89 @@ Proof.
   apply loop_any_map_existsb. intros k Hk. apply in_seq in Hk.
   rewrite zslice_in_range by lia. reflexivity.
 Qed.
+
+(* ------------------------------------------------------------------------------------------------------------
+   Second part: contains_shape / intersects_shape of PolygonBase, GeoLineString, GeoPoint and contains_coordinate of
+   GeoLineString / GeoPoint, regenerated per pair of kinds, equal PairM.contains_shape / PairM.intersects_shape on
+   the shapes of those kinds, for ALL shapes (any vertex lists, holes and time bounds) and every w.
+   do_edges_intersect is SweepM.sweep GeomM.hit here (tied to the source in SweepGenEq); a polygon-like receiver's
+   contains_coordinate is PairM.contains_coordinate (GeomGenEq). *)
+Definition polylike (s : shape) : Prop := match s with Poly _ _ _ | Box _ _ _ _ => True | _ => False end.
+
+Lemma flat_map_id {A} (l : list (list A)) : flat_map (fun r => r) l = concat l.
+Proof. induction l as [|x l IH]; cbn; [reflexivity|]. now rewrite IH. Qed.
+
+(* o_edges[0][0][0] *)
+Lemma first_vertex_index {R} (er : list (list seg)) (K : pt -> res R) :
+  match py_index0 er with Err e => Err e | Ok r => match py_index0 r with Err e => Err e | Ok e0 => K (fst e0) end end
+  = match first_vertex er with Err e => Err e | Ok v => K v end.
+Proof. destruct er as [|[|e r] rs]; reflexivity. Qed.
+
+Lemma geq_line_contains_coordinate : forall w vs d c,
+  g_line_contains_coordinate (Ln vs d) c = contains_coordinate w (Ln vs d) c.
+Proof. reflexivity. Qed.
+Lemma geq_point_contains_coordinate : forall w p d c,
+  g_point_contains_coordinate (Pt p d) c = contains_coordinate w (Pt p d) c.
+Proof. reflexivity. Qed.
+
+Ltac open_pair :=
+  cbv beta delta [g_poly_contains_poly g_poly_contains_line g_poly_contains_point g_line_contains_poly g_line_contains_line
+    g_line_contains_point g_point_contains_poly g_point_contains_line g_point_contains_point g_poly_intersects_poly
+    g_poly_intersects_line g_poly_intersects_point g_line_intersects_poly g_line_intersects_line g_line_intersects_point
+    g_point_intersects_poly g_point_intersects_line g_point_intersects_point
+    contains_shape intersects_shape intersects_shape_gen intersects_tail edges_cross in_coord point_branch
+    do_edges_intersect_ poly_cc sh_edges sh_segments sh_centroid sh_vertices];
+  cbv zeta; rewrite ?flat_map_id;
+  repeat match goal with |- context [edge_rings (Ln ?vs ?d)] => change (edge_rings (Ln vs d)) with [ring_edges vs] end.
+(* the common tail: the sweep, then the first-vertex fallbacks *)
+Ltac tail :=
+  match goal with |- context [sweep hit ?a ?b] => destruct (sweep hit a b) as [[|]|]; try reflexivity end;
+  repeat (cbn [py_index0 first_vertex fst];
+          match goal with
+          | |- context [py_index0 ?l] => destruct l; try reflexivity
+          | |- context [if ?c then _ else _] => destruct c; try reflexivity
+          end).
+
+Section PairEq.
+  Variable w : Z.
+
+  (* ---- contains_shape *)
+  Lemma geq_poly_contains_poly : forall a b, polylike a -> polylike b -> g_poly_contains_poly w a b = contains_shape w a b.
+  Proof. intros a b Ha Hb; destruct a, b; try contradiction; open_pair; tail. Qed.
+  Lemma geq_poly_contains_line : forall a vs d, polylike a -> g_poly_contains_line w a (Ln vs d) = contains_shape w a (Ln vs d).
+  Proof. intros a vs d Ha; destruct a; try contradiction; open_pair; tail. Qed.
+  Lemma geq_poly_contains_point : forall a p d, polylike a -> g_poly_contains_point w a (Pt p d) = contains_shape w a (Pt p d).
+  Proof. intros a p d Ha; destruct a; try contradiction; reflexivity. Qed.
+  Lemma geq_line_contains_poly : forall vs d b, polylike b -> g_line_contains_poly (Ln vs d) b = contains_shape w (Ln vs d) b.
+  Proof. intros vs d b Hb; destruct b; try contradiction; reflexivity. Qed.
+  Lemma geq_line_contains_line : forall vs d us d', g_line_contains_line (Ln vs d) (Ln us d') = contains_shape w (Ln vs d) (Ln us d').
+  Proof. intros. open_pair. cbn. rewrite geq_is_sub_list. reflexivity. Qed.
+  Lemma geq_line_contains_point : forall vs d p d', g_line_contains_point (Ln vs d) (Pt p d') = contains_shape w (Ln vs d) (Pt p d').
+  Proof. reflexivity. Qed.
+  Lemma geq_point_contains_poly : forall p d b, polylike b -> g_point_contains_poly (Pt p d) b = contains_shape w (Pt p d) b.
+  Proof. intros p d b Hb; destruct b; try contradiction; reflexivity. Qed.
+  Lemma geq_point_contains_line : forall p d vs d', g_point_contains_line (Pt p d) (Ln vs d') = contains_shape w (Pt p d) (Ln vs d').
+  Proof. reflexivity. Qed.
+  Lemma geq_point_contains_point : forall p d q d', g_point_contains_point (Pt p d) (Pt q d') = contains_shape w (Pt p d) (Pt q d').
+  Proof. reflexivity. Qed.
+
+  (* ---- intersects_shape *)
+  Lemma geq_poly_intersects_poly : forall a b, polylike a -> polylike b -> g_poly_intersects_poly w a b = intersects_shape w a b.
+  Proof. intros a b Ha Hb; destruct a, b; try contradiction; open_pair; tail. Qed.
+  Lemma geq_poly_intersects_line : forall a vs d, polylike a -> g_poly_intersects_line w a (Ln vs d) = intersects_shape w a (Ln vs d).
+  Proof. intros a vs d Ha; destruct a; try contradiction; open_pair; tail. Qed.
+  Lemma geq_poly_intersects_point : forall a p d, polylike a -> g_poly_intersects_point w a (Pt p d) = intersects_shape w a (Pt p d).
+  Proof. intros a p d Ha; destruct a; try contradiction; reflexivity. Qed.
+  Lemma geq_line_intersects_poly : forall vs d b, polylike b -> g_line_intersects_poly w (Ln vs d) b = intersects_shape w (Ln vs d) b.
+  Proof. intros vs d b Hb; destruct b; try contradiction; open_pair; tail. Qed.
+  Lemma geq_line_intersects_line : forall vs d us d', g_line_intersects_line (Ln vs d) (Ln us d') = intersects_shape w (Ln vs d) (Ln us d').
+  Proof. intros; open_pair; tail. Qed.
+  Lemma geq_line_intersects_point : forall vs d p d', g_line_intersects_point (Ln vs d) (Pt p d') = intersects_shape w (Ln vs d) (Pt p d').
+  Proof. reflexivity. Qed.
+  Lemma geq_point_intersects_poly : forall p d b, polylike b -> g_point_intersects_poly w (Pt p d) b = intersects_shape w (Pt p d) b.
+  Proof. intros p d b Hb; destruct b; try contradiction; reflexivity. Qed.
+  Lemma geq_point_intersects_line : forall p d vs d', g_point_intersects_line (Pt p d) (Ln vs d') = intersects_shape w (Pt p d) (Ln vs d').
+  Proof. reflexivity. Qed.
+  Lemma geq_point_intersects_point : forall p d q d', g_point_intersects_point (Pt p d) (Pt q d') = intersects_shape w (Pt p d) (Pt q d').
+  Proof. reflexivity. Qed.
+End PairEq.
